@@ -197,6 +197,64 @@ def runPage (proj : Table) (fuel : Nat) (file : String) (evs : List Ev) : Option
   | some (st, uses) =>
     some { uses := uses.map (fun (l, it) => (l, finalText st.defs fuel it)), diags := pageEndDiags st }
 
+/-! ### Expansion against a STATIC environment (project-wide substitutions only)
+
+On a page without definitions and without include replacements the handler state relevant to
+lookups never changes, `seen_definitions` stays `None`, and parser-produced references have no
+children: `walkItems` specialises to this function (compared with the implementation on
+"project-only" cases, and with `walkItems` itself by theorem `static_eq_walk` where stated). -/
+
+inductive SDiag where
+  | circular (name : String) (line : Nat)
+  | unresolved (name : String) (line : Nat)
+deriving DecidableEq, Repr
+
+/-- names that can still be entered: keys of `env` not on the path -/
+def sroom : Table → List String → Nat
+  | [], _ => 0
+  | p :: ps, path => (if path.contains p.1 then 0 else 1) + sroom ps path
+
+abbrev SRec := List String → List Item → Option (List Item × List SDiag)
+
+/-- one nesting level; `rec` = walk into an injected copy (one more name on the path) -/
+def expandLevel (env : Table) (rec : SRec) (path : List String) : List Item → Option (List Item × List SDiag)
+  | [] => some ([], [])
+  | .txt s :: rest =>
+    match expandLevel env rec path rest with
+    | none => none
+    | some r => some (.txt s :: r.1, r.2)
+  | .ref name line _ _ :: rest =>
+    if path.contains name then
+      match expandLevel env rec path rest with
+      | none => none
+      | some r => some (.ref name line false [] :: r.1, .circular name line :: r.2)
+    else
+      match tget env name with
+      | none =>
+        match expandLevel env rec path rest with
+        | none => none
+        | some r => some (.ref name line true [] :: r.1, .unresolved name line :: r.2)
+      | some body =>
+        match rec (name :: path) body with
+        | none => none
+        | some k =>
+          match expandLevel env rec path rest with
+          | none => none
+          | some r => some (.ref name line false k.1 :: r.1, k.2 ++ r.2)
+
+def expandStatic (env : Table) : Nat → SRec
+  | 0 => fun _ _ => none
+  | fuel + 1 => expandLevel env (expandStatic env fuel)
+
+/-- the use of `name` on a page, project substitutions only -/
+def useStatic (env : Table) (name : String) (line : Nat) : Option (List Item × List SDiag) :=
+  expandStatic env (sroom env [] + 2) [] [.ref name line false []]
+
+/-- the same without the path guard (the code before the fix) -/
+def expandStaticOld (env : Table) : Nat → SRec
+  | 0 => fun _ _ => none
+  | fuel + 1 => fun _ items => expandLevel env (expandStaticOld env fuel) [] items
+
 /-! ### `{+constant+}` substitution (before parsing) -/
 
 def isVarChar (isWord : Char → Bool) (c : Char) : Bool := isWord c || c == '-'
